@@ -4,7 +4,6 @@ import (
 	"bytes"
 	"errors"
 	"fmt"
-	"math"
 
 	"github.com/Eyevinn/mp4ff/bits"
 )
@@ -351,9 +350,10 @@ func ParseSliceHeader(nalu []byte, spsMap map[uint32]*SPS, ppsMap map[uint32]*PP
 	if pps.NumSliceGroupsMinus1 > 0 &&
 		pps.SliceGroupMapType >= 3 &&
 		pps.SliceGroupMapType <= 5 {
-		picSizeInMapUnits := pps.PicSizeInMapUnitsMinus1 + 1
+		// Ceil( Log2( PicSizeInMapUnits ÷ SliceGroupChangeRate + 1 ) ) bits where ÷ is exact
+		picSizeInMapUnits := sps.picSizeInMapUnits()
 		sliceGroupChangeRate := pps.SliceGroupChangeRateMinus1 + 1
-		nrBits := int(math.Ceil(math.Log2(float64(picSizeInMapUnits/sliceGroupChangeRate + 1))))
+		nrBits := bits.CeilLog2((picSizeInMapUnits+sliceGroupChangeRate-1)/sliceGroupChangeRate + 1)
 		sh.SliceGroupChangeCycle = uint32(r.Read(nrBits))
 	}
 
